@@ -547,9 +547,19 @@ func onFormatBranch(c *Ctx, in ssa.Instruction) bool {
 // goRoots: functions started by go statements inside go-nfsd server packages.
 func goRoots(P *Program) []*ssa.Function {
 	var out []*ssa.Function
+	V := resolveVocabCached(P)
+	var roots []*ssa.Function
+	roots = append(roots, V.NfsEntries...)
+	roots = append(roots, V.SimpleEntries...)
+	for _, s := range []string{"nfs.MakeNfs", "simple.MakeNfs", "simple.Recover", "simple.Mkfs", "kvs.MkKVS"} {
+		if f := P.Func(s); f != nil {
+			roots = append(roots, f)
+		}
+	}
+	server := P.Reach(roots, func(f *ssa.Function) bool { return !IsRepoFunc(f) })
 	for _, fn := range P.RepoFuncs() {
 		rp := relPkg(fn)
-		if strings.HasPrefix(rp, "cmd/") {
+		if strings.HasPrefix(rp, "cmd/") || !server[fn] {
 			continue
 		}
 		for _, b := range fn.Blocks {
